@@ -72,6 +72,41 @@ Definition overlay (reg cust : obj) : obj :=
 
 Definition keys (o : obj) : list string := map fst o.
 
+(* strings.EqualFold against an ASCII name (the relation encoding/json uses to
+   match object keys to struct fields): ASCII case, plus the two non-ASCII
+   runes that fold to ASCII letters, U+017F (C5 BF) ~ s and U+212A (E2 84 AA) ~ k *)
+Fixpoint fold_norm (s : string) : string :=
+  match s with
+  | EmptyString => EmptyString
+  | String c r =>
+      let n := nat_of_ascii c in
+      if (65 <=? n) && (n <=? 90) then String (ascii_of_nat (n + 32)) (fold_norm r)
+      else if n =? 197 then
+        match r with
+        | String d r' => if nat_of_ascii d =? 191 then String "s"%char (fold_norm r')
+                         else String c (fold_norm r)
+        | EmptyString => String c EmptyString
+        end
+      else if n =? 226 then
+        match r with
+        | String d (String e r') =>
+            if (nat_of_ascii d =? 132) && (nat_of_ascii e =? 170) then String "k"%char (fold_norm r')
+            else String c (fold_norm r)
+        | _ => String c (fold_norm r)
+        end
+      else String c (fold_norm r)
+  end.
+
+Definition fold_eq (a b : string) : bool := String.eqb (fold_norm a) (fold_norm b).
+
+Definition fold_variant (names : list string) (k : string) : bool := existsb (fold_eq k) names.
+
+(* mergeRegistered (util.go, fix Fxx-C12-1): custom entries whose name is a
+   case variant of a registered entry are dropped, then the registered entries
+   are written over the custom map *)
+Definition merge (reg cust : obj) : obj :=
+  overlay reg (filter (fun kv => negb (fold_variant (keys reg) (fst kv))) cust).
+
 (* strings.Split(s, " ") and strings.Join(l, " ") *)
 Definition is_space (c : ascii) : bool := Ascii.eqb c " "%char.
 
